@@ -25,6 +25,8 @@ pub struct MemoryBoundedQueue<T: Ord> {
 struct PriorityItem<T: Ord> {
     item: T,
     size: usize,
+    #[cfg(ragc_verif)]
+    seq: u64,
 }
 
 impl<T: Ord> Ord for PriorityItem<T> {
@@ -51,6 +53,8 @@ struct QueueInner<T: Ord> {
     items: BinaryHeap<PriorityItem<T>>, // Max-heap ordered by item priority
     current_size: usize,                // Total bytes currently in queue
     closed: bool,                       // No more pushes allowed
+    #[cfg(ragc_verif)]
+    next_seq: u64,
 }
 
 impl<T: Ord> MemoryBoundedQueue<T> {
@@ -71,6 +75,8 @@ impl<T: Ord> MemoryBoundedQueue<T> {
                 items: BinaryHeap::new(),
                 current_size: 0,
                 closed: false,
+                #[cfg(ragc_verif)]
+                next_seq: 0,
             })),
             capacity_bytes,
             not_full: Arc::new(Condvar::new()),
@@ -103,18 +109,34 @@ impl<T: Ord> MemoryBoundedQueue<T> {
             && inner.current_size > 0
             && !inner.closed
         {
+            #[cfg(ragc_verif)]
+            crate::verif_hooks::log_event(format!("WF {} {}", crate::verif_hooks::tid(), size_bytes));
             inner = self.not_full.wait(inner).unwrap();
+            #[cfg(ragc_verif)]
+            crate::verif_hooks::log_event(format!("KF {}", crate::verif_hooks::tid()));
         }
 
         // Check if closed while we were waiting
         if inner.closed {
+            #[cfg(ragc_verif)]
+            crate::verif_hooks::log_event(format!("R {} {}", crate::verif_hooks::tid(), size_bytes));
             return Err(PushError::Closed);
         }
+
+        #[cfg(ragc_verif)]
+        let seq = {
+            let seq = inner.next_seq;
+            inner.next_seq += 1;
+            crate::verif_hooks::log_event(format!("A {} {} {}", crate::verif_hooks::tid(), seq, size_bytes));
+            seq
+        };
 
         // Add item (BinaryHeap maintains priority order)
         inner.items.push(PriorityItem {
             item,
             size: size_bytes,
+            #[cfg(ragc_verif)]
+            seq,
         });
         inner.current_size += size_bytes;
 
@@ -131,17 +153,31 @@ impl<T: Ord> MemoryBoundedQueue<T> {
         let mut inner = self.inner.lock().unwrap();
 
         if inner.closed {
+            #[cfg(ragc_verif)]
+            crate::verif_hooks::log_event(format!("TR {} {}", crate::verif_hooks::tid(), size_bytes));
             return Err(TryPushError::Closed);
         }
 
         if inner.current_size + size_bytes > self.capacity_bytes {
+            #[cfg(ragc_verif)]
+            crate::verif_hooks::log_event(format!("TB {} {}", crate::verif_hooks::tid(), size_bytes));
             return Err(TryPushError::WouldBlock);
         }
+
+        #[cfg(ragc_verif)]
+        let seq = {
+            let seq = inner.next_seq;
+            inner.next_seq += 1;
+            crate::verif_hooks::log_event(format!("TA {} {} {}", crate::verif_hooks::tid(), seq, size_bytes));
+            seq
+        };
 
         // Add item (BinaryHeap maintains priority order)
         inner.items.push(PriorityItem {
             item,
             size: size_bytes,
+            #[cfg(ragc_verif)]
+            seq,
         });
         inner.current_size += size_bytes;
 
@@ -172,17 +208,30 @@ impl<T: Ord> MemoryBoundedQueue<T> {
 
         // Wait while queue is empty and not closed
         while inner.items.is_empty() && !inner.closed {
+            #[cfg(ragc_verif)]
+            crate::verif_hooks::log_event(format!("WE {}", crate::verif_hooks::tid()));
             inner = self.not_empty.wait(inner).unwrap();
+            #[cfg(ragc_verif)]
+            crate::verif_hooks::log_event(format!("KE {}", crate::verif_hooks::tid()));
         }
 
         // If closed and empty, return None
         if inner.items.is_empty() {
+            #[cfg(ragc_verif)]
+            crate::verif_hooks::log_event(format!("N {}", crate::verif_hooks::tid()));
             return None;
         }
 
         // Remove highest-priority item (BinaryHeap::pop returns max element)
         let priority_item = inner.items.pop().unwrap();
         inner.current_size -= priority_item.size;
+        #[cfg(ragc_verif)]
+        crate::verif_hooks::log_event(format!(
+            "T {} {} {}",
+            crate::verif_hooks::tid(),
+            priority_item.seq,
+            priority_item.size
+        ));
 
         // Signal that queue has space
         self.not_full.notify_one();
@@ -197,12 +246,21 @@ impl<T: Ord> MemoryBoundedQueue<T> {
         let mut inner = self.inner.lock().unwrap();
 
         if inner.items.is_empty() {
+            #[cfg(ragc_verif)]
+            crate::verif_hooks::log_event(format!("TN {}", crate::verif_hooks::tid()));
             return None;
         }
 
         // Remove highest-priority item (BinaryHeap::pop returns max element)
         let priority_item = inner.items.pop().unwrap();
         inner.current_size -= priority_item.size;
+        #[cfg(ragc_verif)]
+        crate::verif_hooks::log_event(format!(
+            "TT {} {} {}",
+            crate::verif_hooks::tid(),
+            priority_item.seq,
+            priority_item.size
+        ));
 
         // Signal that queue has space
         self.not_full.notify_one();
@@ -219,6 +277,8 @@ impl<T: Ord> MemoryBoundedQueue<T> {
     pub fn close(&self) {
         let mut inner = self.inner.lock().unwrap();
         inner.closed = true;
+        #[cfg(ragc_verif)]
+        crate::verif_hooks::log_event(format!("C {}", crate::verif_hooks::tid()));
 
         // Wake up all waiting threads
         self.not_full.notify_all();
